@@ -48,7 +48,7 @@ def main():
         "version": 1,
         "setup_cmd": "python3 vp/setup.py",
         "hooks": {"guard": "PARSEC_VERIF", "enable": "no source hook is needed: static code is reached by #include of the real .c file, yield points by IR translation; checks compile /repo directly",
-                  "baseline_off_cmd": "ctest --test-dir /repo/_build -j8 --timeout 900", "source_commits": [], "add_only": True},
+                  "baseline_off_cmd": "cmake --build /repo/_build -j8 && ctest --test-dir /repo/_build -j8 --timeout 900", "source_commits": [], "add_only": True},
         "engines": [{"name": k, "path": "vp/run.py" if k != "seqir" else "vp/ll2c.py", "serves_properties": sorted(v), "kind_free_text": kinds.get(k, k)} for k, v in sorted(engines.items())],
         "checks": checks,
         "notes": "All checks are solver queries (CBMC+SAT) over code compiled from /repo's working tree at run time; see DESIGN.md. known_findings.json lists recorded/fixed genuine defects.",
